@@ -13,6 +13,8 @@ C17.d K1  operator converters do not alias the input's `terms` dict into the out
 """
 from __future__ import annotations
 
+import sympy as sp
+
 import ast
 import copy
 from typing import Any, Dict, List, Optional, Tuple
@@ -89,6 +91,9 @@ def sample_gate(name: str, sets, n_controls=1, param=None) -> Rec:
     return Rec("Gate", {"name": name, "target": tgt, "control": ctl, "parameter": par, "is_variational": False})
 
 
+PERIODIC = {"RX", "RY", "RZ", "PHASE", "CPHASE", "XX", "CRX", "CRY", "CRZ"}
+
+
 def same_gate(a: Rec, b: Rec) -> Tuple[bool, str]:
     eq = {"CNOT": "CX"}
     na, nb = eq.get(a.fields["name"], a.fields["name"]), eq.get(b.fields["name"], b.fields["name"])
@@ -103,8 +108,15 @@ def same_gate(a: Rec, b: Rec) -> Tuple[bool, str]:
         pb = ""
     if (pa == "") != (pb == ""):
         return False, f"parameter {pa!r} comes back as {pb!r}"
-    if pa != "" and abs(float(pa) - float(pb)) > 1e-12 * max(1.0, abs(float(pa))):
-        return False, f"parameter {pa!r} comes back as {pb!r}"
+    if pa != "":
+        # equal as gates: angles agree modulo the gate's period (4 pi for controlled rotations, 2 pi otherwise) - what Gate.__eq__ calls equal
+        import math
+        period = 4 * math.pi if na in ("CRX", "CRY", "CRZ") else 2 * math.pi
+        fa, fb = float(sp.N(sp.sympify(pa), 30)), float(sp.N(sp.sympify(pb), 30))
+        tol = 1e-12 * max(1.0, abs(fa))
+        exact = abs(fa - fb) <= tol
+        if not exact and (na not in PERIODIC or abs(math.remainder(fa - fb, period)) > 1e-9 * max(1.0, abs(fa) * 1e-3)):
+            return False, f"parameter {pa!r} comes back as {pb!r}"
     return True, ""
 
 
@@ -394,15 +406,58 @@ def check_operator_converters(idx, rep):
                      reason="the converted operator aliases the input's terms (projectq is not installed: outside the decided quantifier)")
         else:
             rep.ok(rule, f, f.node, text=f"{fn}: terms copied", what="converted operator does not alias the input")
+    # cirq -> tangelo, folded on a stand-in PauliSum with symbolic complex coefficients and multi-digit qubit indices
     f = idx.function(f"{TDIR}translate_cirq.py::translate_op_from_cirq")
-    cmap = None
-    for n in own_nodes(f.node):
-        if isinstance(n, ast.Dict) and len(n.keys) == 3:
-            cmap = {norm(k): ast.literal_eval(v) for k, v in zip(n.keys, n.values)}
-    ok = cmap == {"cirq.X": "X", "cirq.Y": "Y", "cirq.Z": "Z"}
-    rep.decide(ok, "K4.operator-roundtrip", f, f.node, text="cirq Pauli -> letter table", what="each cirq Pauli is converted to its own letter",
-               reason=f"table {cmap}")
-    body = norm(ast.Module(body=f.node.body, type_ignores=[]))
-    ok = "pauli_word.coefficient" in body and "line_qubit.x" in body
-    rep.decide(ok, "K4.operator-roundtrip", f, f.node, text="term = letter + qubit index, coefficient carried over",
-               what="each Pauli keeps its qubit index and each word its coefficient", reason="index or coefficient not carried over")
+    from ..consteval import Opaque
+    from ..rules.circuitsem import make_folder
+    import sympy as sp
+
+    class _LQ:
+        _sa_model = True
+
+        def __init__(self, x):
+            self.x = x
+
+    class _PStr:
+        _sa_model = True
+
+        def __init__(self, factors, coefficient):
+            self._f, self.coefficient = factors, coefficient
+
+        def items(self):
+            return [(_LQ(q), Opaque(f"cirq.{p}")) for q, p in self._f]
+
+    class _QOpS:
+        """stand-in for QubitOperator built from a term string such as 'X0 Z12'"""
+        _sa_model = True
+
+        def __init__(self, term=None, coefficient=1):
+            self.terms = {}
+            if term is not None:
+                if isinstance(term, str):
+                    key = tuple(sorted((int(t[1:]), t[0]) for t in term.split()))
+                else:
+                    key = tuple(term)
+                self.terms[key] = coefficient
+
+        def __add__(self, o):
+            r = _QOpS()
+            r.terms = dict(self.terms)
+            for k, v in o.terms.items():
+                r.terms[k] = r.terms.get(k, 0) + v
+            return r
+        __iadd__ = __add__
+    c1, c2, c3 = sp.Symbol("c1"), sp.Symbol("c2"), sp.Symbol("c3")        # complex coefficients
+    words = [([(0, "X"), (12, "Z")], c1), ([(3, "Y")], c2), ([], c3), ([(1, "Z"), (2, "X"), (10, "Y")], 2 + 3 * sp.I)]
+    want = {tuple(sorted(w)): c for w, c in words}
+    fo = make_folder(idx, f"{TDIR}translate_cirq.py", ctors={"QubitOperator": lambda a, k: _QOpS(*a, **k)})
+    fo.env["cirq"] = Opaque("cirq")
+    try:
+        got = fo.run_function(f.node, {"qubit_operator": [_PStr(w, c) for w, c in words]})
+    except (Undecidable, Raised) as e:
+        raise AnalysisError(f"translate_op_from_cirq not foldable: {e}")
+    gt = got.terms if isinstance(got, _QOpS) else {}
+    bad = [k for k in set(gt) | set(want) if sp.simplify(sp.sympify(gt.get(k, 0)) - want.get(k, 0)) != 0]
+    rep.decide(not bad, "K4.operator-roundtrip", f, f.node, text="cirq PauliSum -> QubitOperator: every word keeps its letters, qubit indices and its (complex) coefficient",
+               what="each cirq Pauli becomes its own letter on its own qubit and each word keeps its coefficient, imaginary part included",
+               reason=f"word {bad[0] if bad else ''}: got {gt.get(bad[0]) if bad else ''}, expected {want.get(bad[0]) if bad else ''}")
